@@ -71,6 +71,22 @@ def gen_scenario(r, n_tests=None, allow_signal=True, allow_hang=True):
     sc["via"] = dict(threads=r2.choices(["config", "cli", "env"], [6, 3, 2])[0],
                      failfast=r2.choices(["config", "cli"], [6, 4])[0],
                      retries=r2.choices(["config", "cli", "env"], [6, 2, 2])[0] if not delay_ms else "config")
+    # run modes, crossed with everything else at low probability: units spawned without the launcher, a
+    # machine-readable message format (combined capture), --no-capture (serial run), a negative thread count
+    sc["direct_spawn"] = r2.random() < 0.15
+    # (the experimental libtest-json reporter keeps a per-binary count of tests still to finish that does not
+    # include ignored tests; with ignored tests in a binary it underflows -- a panic in debug builds. That is
+    # outside the twenty properties (observation O3 in DESIGN 11.3), so those formats are only crossed with
+    # scenarios that have no ignored test.)
+    plain = sc["run_ignored"] == "default" and not any(t["ignored"] for t in tests)
+    sc["message_format"] = r2.choice(["libtest-json", "libtest-json-plus"]) if plain and r2.random() < 0.12 else None
+    if r2.random() < 0.08:
+        # (--no-capture with a libtest-json format panics as soon as a test fails: "libtest output requires
+        # CaptureStrategy::Combined" -- observation O4; that combination is only used by the directed
+        # all-passing C08 scenarios)
+        sc["no_capture"] = "human"
+    if sc["threads"] in (1, 2) and r2.random() < 0.3:
+        sc["threads_spelling"] = f"-{max(ncpu() - sc['threads'], 0)}" if ncpu() > sc["threads"] else str(sc["threads"])
     if r.random() < 0.3 and n >= 3:
         # one test group with a max-threads limit, and threads-required on some tests
         sc["groups"] = dict(name="g1", max_threads=r.choice([1, 2]), members=r.choice(["_a", "_b", "_c"]),
@@ -169,8 +185,10 @@ def env_for(sc):
         env["NEXTEST_TEST_THREADS"] = threads_text(sc)
     if via.get("retries") == "env":
         env["NEXTEST_RETRIES"] = str(sc["retries"])
-    if sc.get("no_capture"):
+    if sc.get("no_capture") or sc.get("message_format"):
         env["NEXTEST_EXPERIMENTAL_LIBTEST_JSON"] = "1"
+    if sc.get("direct_spawn"):
+        env["NEXTEST_DOUBLE_SPAWN"] = "0"
     if sc.get("no_tests") and sc.get("no_tests_via") == "env":
         env["NEXTEST_NO_TESTS"] = sc["no_tests"]
     return env or None
@@ -191,6 +209,8 @@ def cli_args(sc, profile):
         a += {"ff": ["--fail-fast"], "noff": ["--no-fail-fast"], "maxfail2": ["--max-fail", "2"]}[sc["failfast"]]
     if via.get("retries") == "cli":
         a += ["--retries", str(sc["retries"])]
+    if sc.get("message_format") and not sc.get("no_capture"):
+        a += ["--message-format", sc["message_format"]]
     if sc.get("no_tests") and sc.get("no_tests_via") != "env":
         a += ["--no-tests", sc["no_tests"]]
     if sc.get("no_capture"):
@@ -223,6 +243,8 @@ def expected_attempts(sc, t):
     res = []
     for k in range(total):
         e = t["expect"][min(k, len(t["expect"]) - 1)]
+        if e == "leak" and sc.get("no_capture"):
+            e = "pass"   # without capture there are no pipes a descendant could hold open
         res.append(e)
         if e in ("pass", "leak"):
             break
